@@ -100,6 +100,7 @@ class Lower:
         self.dflt_names = {}
         self.dflt_text = {}
         self.local_records = []
+        self.aborted = {}                              # cname -> lowering error (the function is emitted as a prototype only)
 
     # ------------------------------------------------------------------ names
     @staticmethod
@@ -2262,6 +2263,7 @@ def lower_unit(ast, unit):
             L.guarded[L.rec_cname[ast.qname(par)]] = cname
     # iterate to a fixpoint of may_throw
     for _round in range(6):
+        L.aborted = {}
         L.closure_fns = {}
         L.throws_directly = set()
         L.calls = {}
@@ -2271,7 +2273,17 @@ def lower_unit(ast, unit):
         for d, w in sel:
             cname = L.fn_by_canon[ast.canon(d['id'])]
             if has_body(d):
-                funs.append(L.function(d, cname, w))
+                try:
+                    funs.append(L.function(d, cname, w))
+                except Abort as e:
+                    # a function the lowering has no rule for (after an edit of /repo) is kept as a prototype with its contract; the proofs
+                    # that need its BODY end in a tool error (tools/pipeline.py), the other proofs of the unit still run
+                    L.aborted[cname] = str(e)
+                    L.throwing.add(cname)
+                    L.cur_fn = cname
+                    ret, rref, sig = L.signature(d, cname)
+                    funs.append({'cname': cname, 'q': ast.qname(d), 'sig': sig, 'contract': contract_lines(w.get('contract', '')),
+                                 'body': None, 'closures': [], 'file': None, 'line': None, 'nloops': 0, 'aborted': str(e)})
             else:
                 L.cur_fn = cname
                 ret, rref, sig = L.signature(d, cname)
